@@ -113,9 +113,9 @@ func (bf *buffer) Close() error {
 	bf.pcond.Broadcast()
 	bf.pcond.L.Unlock()
 
-	bf.pcond.L.Lock()
+	bf.ccond.L.Lock()
 	bf.ccond.Broadcast()
-	bf.pcond.L.Unlock()
+	bf.ccond.L.Unlock()
 
 	return nil
 }
